@@ -61,6 +61,11 @@ func (c *c16Case) render() (string, hx.Outcome) {
 		b["s"] = c.S == "true"
 	case "nil":
 		b["s"] = nil
+	case "named": // a string of a named Go type is a string
+		b["s"] = hx.NamedString(c.S)
+	case "namedptr":
+		v := hx.NamedString(c.S)
+		b["s"] = &v
 	default:
 		b["s"] = c.S
 	}
@@ -479,6 +484,13 @@ func TestC16(t *testing.T) {
 		run(&c16Case{Filter: "truncatewords", S: s})
 	}
 	// receivers of other kinds are first converted to the text they print as
+	for _, str := range []string{"ɐbc", "ɐ", "ⱥbc", "ɐ ɐ", "éa", "ßa"} {
+		for _, recv := range []string{"", "named"} {
+			for _, f := range []string{"capitalize", "upcase", "size", "downcase"} {
+				run(&c16Case{Filter: f, S: str, Recv: recv})
+			}
+		}
+	}
 	for _, r := range []struct{ kind, s string }{{"int", "12"}, {"int", "-7"}, {"int", "0"}, {"uint", "65"}, {"uint8", "97"}, {"uint16", "48"}, {"uint32", "8364"}, {"uint64", "12"}, {"int8", "-7"}, {"int64", "66"}, {"float", "2.5"}, {"float", "-0.25"}, {"bool", "true"}, {"bool", "false"}, {"nil", ""}} {
 		// (size is left out: it is also an array filter, and what it says about a number is not stated)
 		for _, f := range []string{"upcase", "downcase", "capitalize", "strip", "escape", "url_encode"} {
@@ -498,12 +510,14 @@ func TestC16(t *testing.T) {
 	app.Sub.Note("the exhaustive part enumerated %d (filter, string, arguments) points over all shards (%d strings)", idx, len(strs))
 
 	// random long strings
-	chars := append(append([]string{}, c16Alphabet...), "b", "C", "\t", ">", "'", "\"", "+", "=", "/", "ß", "İ", "&amp;", "&lt;", "%20", "z")
+	chars := append(append([]string{}, c16Alphabet...), "b", "C", "\t", ">", "'", "\"", "+", "=", "/", "ß", "İ", "&amp;", "&lt;", "%20", "z",
+		// letters whose upper-case form has another UTF-8 width (2 -> 3 bytes, 3 -> 2 bytes) and maps back to them
+		"ɐ", "ⱥ")
 	genStr := rapid.Custom(func(t *rapid.T) string {
 		return strings.Join(rapid.SliceOfN(rapid.SampledFrom(chars), 0, 200).Draw(t, "chars"), "")
 	})
 	col.Rapid(app.Sub, env.PerShard(env.Pick(200000, 2000000)), func(t *rapid.T) {
-		c := &c16Case{S: genStr.Draw(t, "s")}
+		c := &c16Case{S: genStr.Draw(t, "s"), Recv: rapid.SampledFrom([]string{"", "", "", "", "named", "namedptr"}).Draw(t, "recv")}
 		n := len(runes(c.S))
 		switch rapid.IntRange(0, 5).Draw(t, "kind") {
 		case 0, 1:
